@@ -11,6 +11,17 @@ from . import msggen
 from .lib import coq_bytes
 
 
+
+_proto = [0]
+
+
+def pickle_rt(m):
+    """pickle round trip, cycling through ALL pickle protocols 0..HIGHEST (a falsy state - a message that encodes to b"" - is
+    dropped by protocols 0 / 1 when the class relies on __getstate__ / __setstate__: seeded change C14-7)"""
+    p = _proto[0] % (pickle.HIGHEST_PROTOCOL + 1)
+    _proto[0] += 1
+    return pickle.loads(pickle.dumps(m, protocol=p))
+
 def paths_of(schema, ci, rng, depth=2):
     """a random attribute path [field positions] ending at a class, through plain message fields"""
     path, cur = [], ci
@@ -93,7 +104,7 @@ def apply_op(schema, ci, m, op):
     if k == "deepcopy":
         return copy.deepcopy(m), None
     if k == "pickle":
-        return pickle.loads(pickle.dumps(m)), None
+        return pickle_rt(m), None
     if k == "bytes":
         return m, bytes(m)
     if k == "len":
